@@ -16,7 +16,14 @@ GEN_CFG = """CONSTANTS
   ArchNames = {"read", "write", "close", "fork"}
   MaxFound = %d
   OutFile = "%s"
+  Dev = {}
 """
+
+
+# what an -out file may hold from an earlier run: a longer profile of the same format
+PRIOR_YAML = "seccomp:\n  default_action: errno\n  syscalls:\n  - action: allow\n    names:\n" + "".join("    - %s\n" % n for n in
+    ["accept", "bind", "chdir", "dup", "epoll_wait", "fstat", "getpid", "ioctl", "kill", "listen", "mmap", "nanosleep", "open", "pipe", "read", "socket", "uname", "write"] * 3)
+PRIOR_CODE = "package main\n\nvar earlier = []string{\n" + "".join('\t"%s",\n' % n for n in ["accept", "bind", "chdir", "dup", "epoll_wait", "fstat", "getpid"] * 12) + "}\n"
 
 
 def listing(found):
@@ -77,14 +84,28 @@ def check(ctx, replay=None):
         with open(cache, "w") as f:
             f.write(cmdfam.file_sha256(b) + "\n" + listing(c["found"]))
         fmt = "config" if i % 3 else "code"
-        args = [os.path.join(d, "seccomp-profiler"), "-format", fmt] + flag_args("-b", c["bl"], r) + flag_args("-allow", c["al"], r) + [b]
+        # Profile!Dests: standard output, a new -out file, or an -out file that already holds an earlier, longer profile
+        dest = ("stdout", "newfile", "existing", "existing")[(i // 3) % 4]
+        outf = os.path.join(bdir, "profile_{{.GOARCH}}.out" if i % 2 else "profile.out")
+        real_outf = outf.replace("{{.GOARCH}}", "amd64")
+        if dest == "existing":
+            with open(real_outf, "w") as f:
+                f.write(PRIOR_YAML if fmt == "config" else PRIOR_CODE)
+        args = [os.path.join(d, "seccomp-profiler"), "-format", fmt] + ([] if dest == "stdout" else ["-out", outf]) + flag_args("-b", c["bl"], r) + flag_args("-allow", c["al"], r) + [b]
         try:
             p = subprocess.run(args, capture_output=True, text=True, timeout=60, env={"PATH": os.path.join(work, "nopath"), "HOME": "/root"}, cwd="/")
         except subprocess.TimeoutExpired:
             return c, None, None, fmt, args
         names = None
+        text = p.stdout
         if p.returncode == 0:
-            names = cmdfam.parse_profile_yaml(p.stdout) if fmt == "config" else re.findall(r'^\s+"([^"]+)",$', p.stdout, re.M)
+            if dest != "stdout":
+                try:
+                    text = open(real_outf).read()
+                except OSError:
+                    text = ""
+            names = cmdfam.parse_profile_yaml(text) if fmt == "config" else re.findall(r'^\s+"([^"]+)",$', text, re.M)
+        p.profile_text, p.dest = text, dest
         return c, p, names, fmt, args
     closure_items = []
     with ThreadPoolExecutor(max_workers=12) as ex:
@@ -99,7 +120,7 @@ def check(ctx, replay=None):
             if c["found"] and (c["bl"] or c["al"]):
                 ctx.cov["distinct_nontrivial"] += 1
             rep = {"found": c["found"], "blacklist": c["bl"], "allow": c["al"], "format": fmt, "args": args[1:-1], "expected": want,
-                   "observed": names, "rc": p.returncode, "stderr": p.stderr[-300:], "how": "./check C18 quick"}
+                   "destination": p.dest, "observed": names, "rc": p.returncode, "stderr": p.stderr[-300:], "how": "./check C18 quick"}
             if "Using cached objdump" not in p.stderr:
                 raise vlib.Machinery("the injected cache was not used: " + p.stderr[-300:])
             if p.returncode != 0:
@@ -110,7 +131,7 @@ def check(ctx, replay=None):
                 ctx.violation("the emitted allow-list %s %s; expected %s" % (names, why, want), rep)
                 continue
             if fmt == "config":
-                closure_items.append({"yaml": p.stdout, "names": names})
+                closure_items.append({"yaml": p.profile_text, "names": names})
             if sorted(c["code"]) != want:
                 ctx.drift({"case": c, "what": "code-shaped model differs from the reference"})
         rc, o, e = ctx.run([os.path.join(bindir, "textcheck"), "-mode", "closure"], input=json.dumps(closure_items), timeout=1200)
